@@ -4,6 +4,7 @@ import (
 	"encoding/json"
 	"math/big"
 	"math/rand/v2"
+	"strconv"
 	"strings"
 )
 
@@ -18,6 +19,12 @@ func Instances(r *rand.Rand, root any, n int, smallNumbers bool, names ...string
 	out := make([]any, 0, n)
 	for len(out) < n {
 		var v any
+		// size stress: now and then one container of the instance is stretched past the sizes at which
+		// representations change (machine words, small-slice thresholds): 63..66, 127..130, 255..258
+		ig.longLeft = 0
+		if r.IntN(12) == 0 {
+			ig.longLeft = 1
+		}
 		switch k := r.IntN(10); {
 		case k < 6:
 			v = ig.directed(root, 0)
@@ -41,6 +48,26 @@ type igen struct {
 	r     *rand.Rand
 	root  any
 	small bool // keep numbers small (multipleOf present: float quotient must stay exact)
+	// longLeft > 0: the next array/object built by directedArray/directedObject is stretched to a threshold size
+	longLeft int
+}
+
+// LongSizes are the container sizes of the size-stress mode.
+var LongSizes = []int{63, 64, 65, 66, 67, 127, 128, 129, 130, 200, 255, 256, 257}
+
+// deepContains collects the contains subschemas of m and of everything applied in place to the same array.
+func (g *igen) deepContains(m map[string]any, acc *[]any, depth int) {
+	if c, ok := m["contains"]; ok {
+		*acc = append(*acc, c)
+	}
+	if depth > 3 {
+		return
+	}
+	for _, sub := range g.inPlaceSubs(m) {
+		if sm := asObj(sub); sm != nil {
+			g.deepContains(sm, acc, depth+1)
+		}
+	}
 }
 
 func hasKey(v any, key string) bool {
@@ -398,9 +425,27 @@ func (g *igen) directedArray(m map[string]any, depth int) any {
 	if n > 6 {
 		n = 6
 	}
+	long := false
+	var contains []any
+	if g.longLeft > 0 && depth <= 2 && r.IntN(3) > 0 {
+		g.longLeft--
+		long = true
+		n = Pick(r, LongSizes)
+		g.deepContains(m, &contains, 0)
+	}
 	out := make([]any, n)
 	for i := range out {
 		var sub any
+		if long && i >= 6 && i < n-3 && i != 63 && i != 64 && i != 127 && i != 128 && r.IntN(8) > 0 {
+			// the bulk of a long array repeats earlier items (cheap); the items next to a size boundary and
+			// the last ones are built individually below
+			out[i] = Clone(out[r.IntN(6)])
+			continue
+		}
+		if long && len(contains) > 0 && r.IntN(2) == 0 {
+			out[i] = g.directed(Pick(r, contains), depth+2)
+			continue
+		}
 		switch {
 		case i < len(prefix):
 			sub = prefix[i]
@@ -515,6 +560,27 @@ func (g *igen) directedObject(m map[string]any, depth int) any {
 			for len(out) < b && len(out) < 6 {
 				out[Pick(r, g.names)] = g.free(depth + 2)
 			}
+		}
+	}
+	if g.longLeft > 0 && depth <= 2 && r.IntN(3) > 0 {
+		// size stress: many more properties than any schema names; values repeat a few built ones
+		g.longLeft--
+		var pool []any
+		for _, k := range sortedKeysAny(out) {
+			pool = append(pool, out[k])
+		}
+		for i := 0; i < 3; i++ {
+			pool = append(pool, g.free(depth+2))
+		}
+		for _, k := range []string{"additionalProperties", "unevaluatedProperties"} {
+			if sub, ok := m[k]; ok {
+				pool = append(pool, g.directed(sub, depth+1), g.directed(sub, depth+1))
+			}
+		}
+		n := Pick(r, LongSizes)
+		pre := Pick(r, []string{"k", "a", "z", "x-", "~"})
+		for i := 0; len(out) < n; i++ {
+			out[pre+strconv.Itoa(i)] = Clone(Pick(r, pool))
 		}
 	}
 	return out
@@ -632,4 +698,34 @@ func Respell(r *rand.Rand, v any) any {
 		return x
 	}
 	return v
+}
+
+// LongValue returns a size-stressed free value: an array or object whose length sits on one of LongSizes,
+// over a handful of small values (so that contains / uniqueItems / enum see both matches and misses).
+func LongValue(r *rand.Rand) any {
+	pool := []any{json.Number("1"), "x", nil, true, json.Number("2.5"), []any{}, map[string]any{}, "a"}
+	for i := 0; i < 2; i++ {
+		pool = append(pool, Value(r, ValueOpts{MaxDepth: 2, MaxLen: 3}, 1))
+	}
+	n := Pick(r, LongSizes)
+	if r.IntN(3) > 0 {
+		a := make([]any, n)
+		dom := r.IntN(len(pool))
+		for i := range a {
+			if r.IntN(4) == 0 || i == 63 || i == 64 || i == n-1 {
+				a[i] = Clone(Pick(r, pool))
+			} else {
+				a[i] = Clone(pool[dom])
+			}
+		}
+		return a
+	}
+	m := map[string]any{}
+	for _, k := range Names[:3] {
+		m[k] = Clone(Pick(r, pool))
+	}
+	for i := 0; len(m) < n; i++ {
+		m["k"+strconv.Itoa(i)] = Clone(Pick(r, pool))
+	}
+	return m
 }
